@@ -13,7 +13,7 @@ import vlib
 
 COMP_SRCS = ["harness/comp/comp.cpp"]
 PLAN = {"C17": (["vbyte", "logseq", "daclayout"], ["vbyte", "logseq", "dacvls"]),
-        "C18": (["codes"], ["codes", "tabledec"]),
+        "C18": (["codes", "chunk"], ["codes", "tabledec"]),
         "C19": (["succinct"], ["bitseq", "wt"]),
         "C20": (["repair"], ["repair"])}
 _bad_re = re.compile(r'^<<"BAD", "(.*)">>$')
